@@ -88,7 +88,17 @@ def drive(rep, kinds, hists, seed, tag, per_kind, p2es=None, flags=None):
                     # trials have failed (recorded under C13); the suggestion properties are judged with <= 1 failure
                     nfail += 1
                     if nfail > 1:
+                        # (the trial finishes its job instead: left running it would add a worker the history does not have,
+                        #  and DEHB's mutation step asserts when too few of the trials it started have a result)
+                        for _ in range(9):
+                            ep.step({"a": "Result", "t": step["t"]})
                         continue
+                if kind == "dehb" and step["a"] == "Complete" and ep.level.get(step["t"], 0) == 0:
+                    # (a job cannot end without a report -- Tuner.run raises on that --, and the driver would leave such
+                    #  a trial running: one more worker than the history has, see above)
+                    for _ in range(9):
+                        ep.step({"a": "Result", "t": step["t"]})
+                    continue
                 ep.step(step)
             traces.append(ep.trace(len(traces) + 1))
             meta.append({"kind": kind, "space": name, "p2e": p2e, "seed": seed + j, "history": h})
